@@ -518,7 +518,9 @@ func (tree *Rtree) nearestNeighbor(p geom.Point, n *node, d float64,
 	if n.leaf {
 		for _, e := range n.entries {
 			dist := minDistance(p, e.bb)
-			if dist < d {
+			// An object without extent is infinitely far away, but it is
+			// nearer than nothing.
+			if dist < d || nearest == nil {
 				d = dist
 				nearest = e.obj
 			}
@@ -528,7 +530,7 @@ func (tree *Rtree) nearestNeighbor(p geom.Point, n *node, d float64,
 		branches = pruneEntries(p, branches, dists)
 		for _, e := range branches {
 			subNearest, dist := tree.nearestNeighbor(p, e.child, d, nearest)
-			if dist < d {
+			if dist < d || nearest == nil {
 				d = dist
 				nearest = subNearest
 			}
@@ -552,7 +554,9 @@ func (tree *Rtree) NearestNeighbors(k int, p geom.Point) []geom.Geom {
 func insertNearest(k int, dists []float64, nearest []geom.Geom, dist float64,
 	obj geom.Geom) ([]float64, []geom.Geom) {
 	i := 0
-	for i < k && dist >= dists[i] {
+	// A slot that is still free takes any object, also one without extent,
+	// which is infinitely far away.
+	for i < k && nearest[i] != nil && dist >= dists[i] {
 		i++
 	}
 	if i >= k {
